@@ -55,6 +55,15 @@
 // 'apply 'f (list ..)), (apply 'funcall 'f ..), unpack, by symbol, by value,
 // computed, two levels deep): constant stack and transparency.
 //
+// A ninth family ("entry") makes the HOST ENTRY POINTS and CONTEXT OBJECTS the
+// explored dimension: the definitions and the top-level call of a program
+// enter one runtime separately, through every pair of entry points
+// (load-string, load-program, eval; + funcall for the call) under every
+// relation between the two contexts (none, the same object, another live
+// object, one cancelled after the definitions, context.Background(); with or
+// without a lisp.WithContext root context): constant stack, transparency and
+// never-collapsed for every pair (entry.go).
+//
 // No expected value is written down except the index of the innermost handler
 // (computed from N).
 package c02
@@ -198,7 +207,9 @@ func checkProgram(p *pool, c Case, cfgs []string) ([]finding, progResult) {
 		// tail iteration, so the run agrees with elimination off even under a
 		// budget far below the number of turns
 		if c.N == 10 && pr.fits {
-			o := execute(p, src, runOpts{Limit: blockedTailBudget}, cfgOn)
+			ro := optsOf(c)
+			ro.Limit = blockedTailBudget
+			o := execute(p, src, ro, cfgOn)
 			if !same(o.Out, off.Out) {
 				add("never-collapsed", fmt.Sprintf("with MaxTailIterations=%d the %d-turn run agrees with elimination off (no turn through %s is a tail iteration): %s", blockedTailBudget, c.N, blockerFrameName(b), off.Out.String()),
 					cfgOn+": "+o.Out.String(), "a call made inside the dynamic extent of "+b+" was collapsed")
@@ -296,6 +307,22 @@ func plan(g group, thorough bool) []nrun {
 			out = append(out, nrun{N: 100, Cfgs: allConfigs})
 		}
 		return out
+	}
+	if g.Family == "entry" {
+		// quick: 10 turns under {on, off, profiler}, 100 under {on, off};
+		// thorough: both under all three, plus 1000 under {on, off} for tail
+		// shapes defined through load-string without a root context
+		if thorough && entryTail(g.Case) && g.DefEntry == "load-string" && g.Root == "" {
+			// (one N=1000 run costs 10-30 ms: definitions through load-string, no root context)
+			return []nrun{{N: 10, Cfgs: entryConfigs}, {N: 100, Cfgs: entryConfigs}, {N: 1000, Cfgs: onOff}}
+		}
+		if thorough {
+			// (blocked shapes: N frames of the blocker per turn, and without a
+			// monitoring context an overflow swallowed by ignore-errors could
+			// not be told from a fitting run)
+			return []nrun{{N: 10, Cfgs: entryConfigs}, {N: 100, Cfgs: entryConfigs}}
+		}
+		return []nrun{{N: 10, Cfgs: entryConfigs}, {N: 100, Cfgs: onOff}}
 	}
 	if g.Family == "chain" {
 		n := chainTurns(g.Topo)
@@ -406,7 +433,7 @@ func checkGroup(p *pool, g group, runs []nrun, each func(Case, []string, progRes
 	}
 	// (2) constant stack: only for shapes whose call is a tail call all the way
 	// (not the stack-growth walks: their N is the recursion DEPTH, not a number of turns)
-	if (g.Family == "tail" || g.Family == "multiform" || g.Family == "chain" || g.Family == "forward") && g.Container != "walk" && len(hs) >= 2 {
+	if (g.Family == "tail" || g.Family == "multiform" || g.Family == "chain" || g.Family == "forward" || entryTail(g.Case)) && g.Container != "walk" && len(hs) >= 2 {
 		measures := []struct {
 			name string
 			f    func(progResult) int
@@ -451,23 +478,40 @@ func checkGroup(p *pool, g group, runs []nrun, each func(Case, []string, progRes
 	// chain family: the interpreter's own limit must agree with the monitor:
 	// with MaxHeightPhysical a few frames above the SHORT run's peak, the
 	// LONG run completes with the same outcome.
-	if (g.Family == "chain" || g.Family == "forward") && len(hs) >= 2 {
+	if (g.Family == "chain" || g.Family == "forward" || entryTail(g.Case)) && len(hs) >= 2 {
 		short, long := hs[0], hs[len(hs)-1]
-		limit := short.pr.heightOn + smallStackMargin
+		peak := short.pr.heightOn
+		if peak == 0 {
+			// entry family, run without a monitoring context: the deepest
+			// stack the harness saw is the base-case probe's
+			peak = short.pr.baseDepth[cfgOn]
+		}
+		limit := peak + smallStackMargin
 		c := g.kase(long.n)
 		src := Source(c)
-		ref := execute(p, src, runOpts{}, cfgOn)
-		o := execute(p, src, runOpts{MaxPhys: limit}, cfgOn)
+		ro := optsOf(c)
+		ref := execute(p, src, ro, cfgOn)
+		ro.MaxPhys = limit
+		o := execute(p, src, ro, cfgOn)
 		if !same(o.Out, ref.Out) {
 			c.Ns = []int{short.n, long.n}
 			c.Oracle = "constant-stack"
 			all = append(all, finding{Oracle: "constant-stack", Case: c,
-				Expected: fmt.Sprintf("the N=%d run completes under MaxHeightPhysical=%d (peak of the N=%d run %d + %d): %s", long.n, limit, short.n, short.pr.heightOn, smallStackMargin, ref.Out.String()),
+				Expected: fmt.Sprintf("the N=%d run completes under MaxHeightPhysical=%d (peak of the N=%d run %d + %d): %s", long.n, limit, short.n, peak, smallStackMargin, ref.Out.String()),
 				Got:      o.Out.String(),
 				Note:     "a tail loop's stack height must not grow with the number of iterations"})
 		}
 	}
 	return all
+}
+
+// entryTail: a case of the entry family whose call is a tail call all the way.
+func entryTail(c Case) bool {
+	if c.Family != "entry" {
+		return false
+	}
+	b, _ := blockerOf(c.Shape)
+	return b == ""
 }
 
 // smallStackMargin covers the frames the per-step monitor cannot see (a
@@ -488,6 +532,8 @@ type explorer struct {
 	notHigher int64
 	heightCmp int64
 	sampled   map[string]bool
+
+	entrySampled int
 }
 
 func (e *explorer) isSubsumed(f finding) bool {
@@ -508,11 +554,11 @@ func runsFor(c Case) []nrun {
 				out = append(out, nrun{N: n, Cfgs: allConfigs, Stack: true})
 				continue
 			}
-			out = append(out, nrun{N: n, Cfgs: allConfigs})
+			out = append(out, nrun{N: n, Cfgs: configsOf(c)})
 		}
 		return out
 	}
-	return []nrun{{N: c.N, Cfgs: allConfigs, Limit: c.Limit}}
+	return []nrun{{N: c.N, Cfgs: configsOf(c), Limit: c.Limit}}
 }
 
 // confirm re-runs the case 5 times in fresh runtimes and keeps a finding only
@@ -553,13 +599,18 @@ func (e *explorer) runGroups(groups []group) {
 				r.AddTransitions(int64(len(cfgs))) // frame-count checks
 			}
 			src := Source(c)
-			h := sha256.Sum256([]byte(fmt.Sprintf("%s#limit=%d", src, c.Limit)))
+			ident := fmt.Sprintf("%s#limit=%d", src, c.Limit)
+			if g.Family == "entry" {
+				// the way the program enters the runtime is part of its identity
+				ident += fmt.Sprintf("#entry=%s/%s->%s/%s root=%s", c.DefEntry, c.DefCtx, c.RunEntry, c.RunCtx, c.Root)
+			}
+			h := sha256.Sum256([]byte(ident))
 			var k [16]byte
 			copy(k[:], h[:16])
 			e.mu.Lock()
 			_, dup := e.sources[k]
 			e.sources[k] = struct{}{}
-			if (g.Family == "tail" || g.Family == "multiform" || g.Family == "chain" || g.Family == "forward") && g.Container != "walk" && c.N >= 10 && c.Err != "first" && pr.fits {
+			if (g.Family == "tail" || g.Family == "multiform" || g.Family == "chain" || g.Family == "forward" || (entryTail(g.Case) && pr.heightOn > 0)) && g.Container != "walk" && c.N >= 10 && c.Err != "first" && pr.fits {
 				if pr.heightOff > pr.heightOn {
 					e.collapsed++
 				} else {
@@ -568,6 +619,14 @@ func (e *explorer) runGroups(groups []group) {
 			}
 			key := g.Family + g.Def + g.Starter + "/" + blk + "/" + c.Err + "/" + fmt.Sprint(len(c.Shape))
 			want := !e.sampled[key] && c.N == 3 && (c.Topo == 2 || g.Family == "sequence") && len(e.sampled) < 24
+			if g.Family == "entry" {
+				// (its own small budget: the family runs after the others)
+				key = "entry/" + c.DefCtx + "/" + c.RunCtx + "/" + c.Root
+				want = !e.sampled[key] && c.N == 10 && c.Topo == 2 && len(c.Shape) == 1 && c.RunEntry == "funcall" && c.DefCtx != "A-cancelled" && c.Root == "" && e.entrySampled < 4
+				if want {
+					e.entrySampled++
+				}
+			}
 			if want {
 				e.sampled[key] = true
 			}
@@ -577,11 +636,11 @@ func (e *explorer) runGroups(groups []group) {
 					"max_height_on": pr.heightOn, "max_height_off": pr.heightOff})
 			}
 			if !dup && pr.iterated && pr.fits {
-				r.Nontrivial(fmt.Sprintf("%s#limit=%d", src, c.Limit))
+				r.Nontrivial(ident)
 			}
 			r.Outcome(g.Family + g.Def + " " + blk + " err=" + c.Err + " -> " + pr.outcomeKind)
 		})
-		if g.Family == "chain" || g.Family == "forward" {
+		if g.Family == "chain" || g.Family == "forward" || entryTail(g.Case) {
 			r.AddEvals(2)       // the long run, with and without the small MaxHeightPhysical
 			r.AddTransitions(6) // 5 height / base-depth comparisons + the small-stack outcome
 		}
@@ -593,10 +652,10 @@ func (e *explorer) runGroups(groups []group) {
 			for _, f := range fs {
 				e.found[f.Oracle]++
 				pendingPerClass[f.class()]++
-				if pendingPerClass[f.class()] > 3 && g.Family != "chain" {
+				if pendingPerClass[f.class()] > 3 && g.Family != "chain" && g.Family != "entry" {
 					continue // Violate keeps at most 3 cases per class anyway
 				}
-				// (chain family: every finding is kept so that the 3 reported
+				// (chain and entry families: every finding is kept so that the 3 reported
 				// ones are the smallest depths / ring sizes, whatever the
 				// order in which the workers finished)
 				pending = append(pending, pendingFinding{g, f})
@@ -625,7 +684,13 @@ func (e *explorer) runGroups(groups []group) {
 		if a.Case.Err != b.Case.Err {
 			return a.Case.Err < b.Case.Err
 		}
-		return a.Case.N < b.Case.N
+		if a.Case.N != b.Case.N {
+			return a.Case.N < b.Case.N
+		}
+		if a.Case.RunEntry != b.Case.RunEntry {
+			return a.Case.RunEntry < b.Case.RunEntry
+		}
+		return a.Case.DefEntry < b.Case.DefEntry
 	})
 	reportedPerClass := map[string]int{}
 	for _, pf := range pending {
@@ -916,8 +981,22 @@ func run(r *core.Run) {
 	r.Bound("closure_dimensions", map[string]any{"loop_shape_depth": mfDepth, "parameter_styles": closureParams, "captured_parameter": closureCaptures,
 		"carry": closureCarries, "topologies": "self, 2-cycle, 3-cycle", "definition_styles": "defun, labels",
 		"iteration_counts": "quick 0,1,2,3,10; thorough adds 100", "Stack.MaxTailIterations": closureTailLimit})
+	r.Bound("entry_point_dimensions", map[string]any{
+		"definition_entry":   "quick: load-string; thorough: " + strings.Join(entryDefEntries, ", ") + " (with / without a context parameter)",
+		"run_entry":          entryRunEntries,
+		"context_pairs":      "(definitions, run) in " + fmt.Sprint(entryCtxPairs) + ": none = the entry point without a context parameter, A / other = two distinct live monitoring contexts, A-cancelled = A cancelled once the definitions are loaded, background = context.Background()",
+		"root_environment":   "without / with a context installed by lisp.WithContext",
+		"shapes":             "quick: the 16 terminal shapes of depth <= 1 and each of the 4 blocking boundaries alone; thorough: blockers at every level of the depth <= 1 shapes (a blocker combined with a terminal position: definitions through load-string, self and 2-cycle), and the 225 shapes of depth 2 for load-string -> funcall without a root context",
+		"topologies":         "quick: self, 2-cycle; thorough: self, 2-cycle, 3-cycle",
+		"error_modes":        "none, base (base: the shape is the last form of the function body itself)",
+		"argument_style":     "acc",
+		"iteration_counts":   "quick: 10 {on, off, profiler}, 100 {on, off}; thorough: 10, 100 {on, off, profiler}, 1000 {on, off} (tail shapes, definitions through load-string, no root context)",
+		"runtime":            "one per worker, root-context mode and configuration, reused like the other families'; every program brings fresh context objects",
+		"relations":          "constant stack (N=10 vs 100 [vs 1000]: base-case depth, per-step maximum where the running context is a monitoring one; the long run under MaxHeightPhysical = short peak + 8), transparency against the dormant-debugger run of the same entry pair, never-collapsed for the blockers",
+		"program_identities": "a program of this family is (source text, definition entry and context, run entry and context, root mode)",
+	})
 	r.Bound("configurations", allConfigs)
-	r.Rule("a program is every (shape, topology, argument style, error mode, N); non-trivial = it performs at least one recursive call (N>=1) and its elimination-off run stays inside the stack limits so that the transparency relation applies; distinct by source text")
+	r.Rule("a program is every (shape, topology, argument style, error mode, N); non-trivial = it performs at least one recursive call (N>=1) and its elimination-off run stays inside the stack limits so that the transparency relation applies; distinct by source text (entry family: and by entry pair). The entry family splits such a program into its definitions and its top-level call and lets the two halves enter one fresh runtime through every pair of host entry points (load-string, load-program, eval, funcall) under every relation between the two context objects (none, the same, another, a cancelled one, context.Background(); with or without a root context): constant stack, transparency and never-collapsed must hold for every pair")
 	r.Assume("elimination off = Runtime.Debugger set to an attached, never-enabled debugger; profiler = a lisp.Profiler that only counts spans")
 	r.Assume("max stack height = max len(Runtime.Stack.Frames) sampled at every evaluation step through the context's Err() hook; the 'plain' configuration runs without a context and is compared on outcome and base-case depth only")
 	r.Assume("unspecified: step counts, error message text and error stack traces differ legitimately between configurations and are not compared")
@@ -930,6 +1009,7 @@ func run(r *core.Run) {
 	r.Assume("chain: peak stack height and base-case depth are equal for n and 10n turns, the 10n run completes with elimination on under MaxHeightPhysical = (peak of the n run)+8, and on/off agree; the class names the kind of chain, not its length: the three smallest failing lengths are reported")
 	r.Assume("closure: every turn builds a closure over one of the function's own parameters (counter, datum, &rest list) that is used after later turns rebound the parameters (collected and invoked after the loop, continuation-passing, returned, or invoked by the next turn); runs under MaxTailIterations=5000, far above the <=100 turns, only so that a runaway continuation in a broken evaluator stops quickly")
 	r.Assume("multiform/walk: every case runs in a fresh runtime so that the call stack's frame slice grows during the first walk; the visit order (g-log) of both walks is part of the value")
+	r.Assume("entry: the step monitor hangs on the harness's own context objects, so a run through an entry point without a context parameter (and no root context) or under context.Background() is compared on the base-case depth and on the outcome under the small MaxHeightPhysical only; the stack is sampled during the run half only; nothing is compared across entry pairs (the statement relates executions with elimination on and off, not entry points)")
 	r.Assume("one runtime per worker and configuration is reused for up to 256 programs (they only redefine globals); it is dropped when a run leaves frames behind, is cancelled or panics; every disagreement is re-confirmed 5x in fresh runtimes")
 	r.Assume("violations are reported minimal-shape-first: a shape that contains an already reported shape (same relation) as a subsequence is counted under subsumed_violations, not reported")
 
@@ -962,11 +1042,27 @@ func run(r *core.Run) {
 		{"multiform", 0}, {"multiform", 1}, {"multiform", 2},
 		{"walk", 0},
 		{"forward", 0},
+		{"entry", 0},
 		{"chain", 0},
 		{"closure", 0}, {"closure", 1}, {"closure", 2},
 		{"blocked", 3}, {"tail", 3},
 	}
+	only := os.Getenv("C02_ONLY") // development aid: run one family
 	for _, st := range steps {
+		if only != "" && only != st.family {
+			continue
+		}
+		if st.family == "entry" {
+			if r.Expired() {
+				r.Cap("soft deadline before the entry-point / context family")
+				continue
+			}
+			t0 := time.Now()
+			gs := makeEntryGroups(r.Thorough())
+			e.runGroups(gs)
+			fmt.Fprintf(os.Stderr, "c02: entry points x contexts: %d groups, %.1fs\n", len(gs), time.Since(t0).Seconds())
+			continue
+		}
 		if st.family == "walk" {
 			if r.Expired() {
 				r.Cap("soft deadline before the stack-growth walks")
@@ -1042,6 +1138,10 @@ func replay(v core.Violation) (bool, string) {
 	g := group{c}
 	var b strings.Builder
 	fmt.Fprintf(&b, "program:\n%s", Source(c))
+	if c.Family == "entry" {
+		fmt.Fprintf(&b, "entry: all lines but the last through %s (context: %s), then the last line through %s (context: %s); root context: %q\n",
+			c.DefEntry, c.DefCtx, c.RunEntry, c.RunCtx, c.Root)
+	}
 	for _, nr := range runsFor(c) {
 		b.WriteString(Describe(g.kase(nr.N)))
 	}
